@@ -17,9 +17,11 @@ CONSTANTS
   Limits = {100}
   NewaccVals = {TRUE, FALSE}
   AsattVals = {TRUE, FALSE}
+  LongVals = {FALSE}
   AllowSlow = TRUE
   DEV_NewaccNoAuth = FALSE
   DEV_ServeUnfinished = FALSE
+  DEV_SniffPadded = FALSE
   DEV_FinishFailLeavesBytes = FALSE
 SPECIFICATION Spec
 VIEW View
